@@ -75,6 +75,24 @@ CHECKS = {
         "Trusted: the harness-side Future.set_result wrapper; FIFO dispatch of ThreadPoolExecutor for the feasibility rule. A schedule that is not realised exactly is inconclusive, never a violation.",
         "3 C17",
     ),
+    "C07": (
+        "runtime monitoring: statistical monitor with rigorous null-hypothesis tail bounds (exact chi-square / Gaussian / Bernstein intervals, union-bounded to 1e-9 per run) on seeded executions, plus exact per-execution clauses (verbatim noise, conversions, SNR tools vs reference, same-seed scaling)",
+        "Every additive-noise channel x real/complex x power/SNR parameterisation x input powers and SNRs over several decades x shapes x dtypes, N=1e6 (quick) / 4e6 (thorough) samples per configuration. Exploration; resolution ~0.5-2% in power.",
+        "Trusted: scipy.stats distribution functions, the seeded torch generator. Per-run false-alarm probability <= 1e-9 under the stated law.",
+        "3 C07",
+    ),
+    "C12": (
+        "runtime monitoring: exact support/extreme/mutation monitors on every sample plus exact-Binomial statistical monitors of rate, per-symbol rate and conditional (neighbour) rate, union-bounded to 1e-9 per run",
+        "BSC/Z/BEC x 9 probabilities incl. 0 and 1 x both alphabets x dtypes x shapes; 1e6 (quick) / 4e6 (thorough) symbols per configuration. Exploration.",
+        "Trusted: scipy.stats.binom; seeded generator. Bipolar BEC driven with an explicit erasure symbol.",
+        "3 C12",
+    ),
+    "C13": (
+        "runtime monitoring: exact structural monitors (block constancy incl. short last block, y=h.x+n with supplied state, shape) plus exact Gaussian/chi-square/Binomial statistical monitors on the coefficients observed through the channel boundary (x=1, zero noise)",
+        "Rayleigh/Rician(K=0..100)/log-normal and convenience subclasses x coherence times incl. non-divisors x real/complex x 1-D/2-D/4-D; gain statistics on 1e6 (quick) / 4e6 (thorough) coefficients; noise stage calibrated against the faded signal. Exploration.",
+        "Trusted: scipy.stats; the component-wise Gaussian tests decide unit mean-square gain and K exactly under the stated law.",
+        "3 C13",
+    ),
 }
 
 ALL = [f"C{i:02d}" for i in range(1, 21)]
